@@ -24,15 +24,16 @@ fn base() -> ProgressStyle {
 
 pub fn style_build(args: &[String]) -> String {
     std::panic::set_hook(Box::new(|_| {}));
-    let tick_sets: Vec<Vec<&str>> = vec![vec![], vec!["x"], vec!["a", "b"], vec!["ab", "c", "d"]];
-    let pc_sets: Vec<&str> = vec!["\u{200b}\u{200b}", "\u{200b}\u{200b}\u{200b}", "#>-", "██", "ab"];
+    let tick_sets: Vec<Vec<&str>> = vec![vec![], vec!["x"], vec!["a", "b"], vec!["ab", "c", "d"], vec!["a", "b", "c", "done"], vec!["\u{2588}"], vec!["1", "2", "3", "4", "5", "6", "7", "end"]];
+    let pc_sets: Vec<&str> = vec!["", "#", "\u{2588}", "\u{ff03}", "\u{200b}\u{200b}", "\u{200b}\u{200b}\u{200b}", "#>-", "██", "ab", "#12345678-", "\u{ff03}\u{ff1e}\u{ff0d}"];
     let only: Option<&str> = args.get(0).map(String::as_str);
     if only.is_none() || only == Some("tick_strings") {
         for ts in &tick_sets {
             let built = catch_unwind(AssertUnwindSafe(|| base().tick_strings(ts)));
             if let Ok(style) = built {
                 for pos in [0u64, 3, 10] {
-                    if let Err(msg) = render(style.clone(), pos, 3, 40) {
+                    let many = render(style.clone(), pos, 12, 40);
+                    if let Err(msg) = render(style.clone(), pos, 3, 40).and(many) {
                         return format!("{{\"found\": true, \"clause\": \"C14-wf tick_strings accepted a style whose draw panics\", \"input\": {{\"builder\": \"tick_strings\", \"arg\": {}, \"position\": {}, \"panic\": {}}}, \"rerun\": \"replay style_build tick_strings\"}}", crate::jlist(ts), pos, crate::js(&msg));
                     }
                 }
@@ -43,7 +44,7 @@ pub fn style_build(args: &[String]) -> String {
         for pc in &pc_sets {
             let built = catch_unwind(AssertUnwindSafe(|| base().progress_chars(pc)));
             if let Ok(style) = built {
-                for pos in [0u64, 3, 10] {
+                for pos in 0u64..=11 {
                     if let Err(msg) = render(style.clone(), pos, 3, 40) {
                         return format!("{{\"found\": true, \"clause\": \"C14-wf progress_chars accepted a style whose draw panics\", \"input\": {{\"builder\": \"progress_chars\", \"arg\": {}, \"position\": {}, \"panic\": {}}}, \"rerun\": \"replay style_build progress_chars\"}}", crate::js(pc), pos, crate::js(&msg));
                     }
@@ -61,10 +62,10 @@ pub fn style_build(args: &[String]) -> String {
         }
     }
     if only.is_none() || only == Some("tick_chars") {
-        for tc in ["", "x", "ab", "abc"] {
+        for tc in ["", "x", "ab", "abc", "\u{e9}", "\u{2588}", "\u{1f600}", "\u{2801}\u{2802}"] {
             let built = catch_unwind(AssertUnwindSafe(|| base().tick_chars(tc)));
             if let Ok(style) = built {
-                if let Err(msg) = render(style.clone(), 3, 3, 40) {
+                if let Err(msg) = render(style.clone(), 3, 3, 40).and(render(style.clone(), 3, 12, 40)) {
                     return format!("{{\"found\": true, \"clause\": \"C14-wf tick_chars accepted a style whose draw panics\", \"input\": {{\"builder\": \"tick_chars\", \"arg\": {}, \"panic\": {}}}, \"rerun\": \"replay style_build tick_chars\"}}", crate::js(tc), crate::js(&msg));
                 }
             }
